@@ -12,7 +12,7 @@ _SEQ = []
 KINDS = ['ok', 'stream', 'ctx', 'static', 'static304', 'redirect', 'slashredirect_ctl', 'reroute_rewrite', 'reroute_raise_rewrite',
          'notfound', 'wrongmethod', 'boom', 'boombraces', 'ret400braces',
          'debugboom', 'meta', 'gzip', 'cache',
-         'empty', 'ret403', 'reroute', 'reroute_raise', 'unicode_header']
+         'empty', 'ret403', 'reroute', 'reroute_raise', 'unicode_header', 'ret403msg', 'raise404msg', 'raise409nl']
 METHODS = ['GET', 'HEAD', 'POST', 'OPTIONS']
 
 
@@ -123,12 +123,28 @@ def build_kind_app(kind, tmpdir, target_kind='plain203'):
     from clastic.render import render_basic
     from clastic.static import StaticApplication
 
-    t_status, t_headers, t_body = TARGETS[target_kind]
+    t_status, t_headers, t_body = TARGETS.get(target_kind, TARGETS['plain203'])
 
     def target(environ, start_response):
         start_response(t_status, list(t_headers))
         _SEQ.append(('target', id(environ), sorted((k, repr(v)) for k, v in environ.items())))
         return [] if environ['REQUEST_METHOD'] == 'HEAD' else list(t_body)      # the target itself conforms
+    if target_kind == 'clastic_app':
+        # the target is itself a clastic Application whose answer depends on its own WSGI layer (a middleware's wsgi_wrapper):
+        # "the target WSGI application" is the callable, wrappers included
+        from clastic.middleware import Middleware
+
+        class Served(Middleware):
+            def wsgi_wrapper(self, inner):
+                def wrapped(environ, start_response):
+                    _SEQ.append(('target', id(environ), sorted((k, repr(v)) for k, v in environ.items())))
+
+                    def sr(status, headers, exc_info=None):
+                        return start_response(status, list(headers) + [('X-Served-By', 'target-wrapper')])
+                    return inner(environ, sr)
+                return wrapped
+        target = Application([('/<p*>', lambda p: Response('target application saw ' + '/'.join(p), mimetype='text/plain',
+                                                           headers={'X-Target': 'yes'}))], middlewares=[Served()])
 
     def boom():
         raise ValueError('boom')
@@ -138,6 +154,18 @@ def build_kind_app(kind, tmpdir, target_kind='plain203'):
 
     def boombraces():
         raise KeyError({'user': 'x', 'fmt': '{0} {name!r} }{'})
+
+    def ret403msg():
+        # the application words its own error (message/detail are free text: typographic dash, ellipsis, CJK)
+        return Forbidden(message=u'Zugriff verweigert \u2014 bitte anmelden\u2026', detail=u'\u4e0d\u5141\u8bb8')
+
+    def raise404msg():
+        from clastic.errors import NotFound
+        raise NotFound(message=u'\u2018nothing\u2019 here \u2192 try /ok')
+
+    def raise409nl():
+        from clastic.errors import Conflict
+        raise Conflict(message='first line\nsecond line\r\nthird', detail='a\nb')
 
     def ret400braces():
         from clastic.errors import BadRequest
@@ -151,9 +179,12 @@ def build_kind_app(kind, tmpdir, target_kind='plain203'):
               ('/reroute_raise', reroute_raise), ('/boombraces', boombraces), ('/ret400braces', ret400braces),
               ('/files/<name>/', lambda name: Response('file ' + name)), ('/rr/<p*>', RerouteWSGI(target)),
               ('/rrr/<p*>', lambda p: reroute_raise()),
-              ('/unicode_header', lambda: Response('x', headers={'X-Thing': 'caf\xe9'}))]
-    return Application(routes, middlewares=mws, debug=(kind == 'debugboom'),
-                       slash_mode='rewrite' if kind.endswith('_rewrite') else 'redirect')
+              ('/unicode_header', lambda: Response('x', headers={'X-Thing': 'caf\xe9'})),
+              ('/ret403msg', ret403msg), ('/raise404msg', raise404msg), ('/raise409nl', raise409nl)]
+    app = Application(routes, middlewares=mws, debug=(kind == 'debugboom'),
+                      slash_mode='rewrite' if kind.endswith('_rewrite') else 'redirect')
+    app._verif_target = target
+    return app
 
 
 def record(app, env, head):
@@ -161,7 +192,12 @@ def record(app, env, head):
     events, problems = [], []
 
     def start_response(status, headers, exc_info=None):
-        so = isinstance(status, str) and re.match(r'^\d{3} [^\r\n]+$', status) is not None
+        so = isinstance(status, str) and re.match(r'^\d{3} [^\x00-\x1f\x7f]+$', status) is not None
+        try:
+            if so:
+                status.encode('latin-1')          # PEP 3333: native strings whose characters are all bytes
+        except UnicodeEncodeError:
+            so = False
         ho = isinstance(headers, list) and all(isinstance(h, tuple) and len(h) == 2 and isinstance(h[0], str) and isinstance(h[1], str)
                                                and not re.search(r'[\x00-\x1f\x7f]', h[0] + h[1]) for h in headers)
         try:
@@ -209,6 +245,7 @@ def impl_kind(case):
                 'redirect': '/redirect', 'notfound': '/nope', 'wrongmethod': '/postonly', 'boom': '/boom', 'boombraces': '/boombraces', 'ret400braces': '/ret400braces', 'debugboom': '/boom',
                 'meta': '/meta/', 'gzip': '/ok', 'cache': '/ok', 'empty': '/empty', 'ret403': '/ret403', 'reroute': '/reroute',
                 'reroute_raise': '/reroute_raise', 'unicode_header': '/unicode_header',
+                'ret403msg': '/ret403msg', 'raise404msg': '/raise404msg', 'raise409nl': '/raise409nl',
                 # a slash redirect whose path holds control characters (percent-decoded by the server): still a valid header value
                 'slashredirect_ctl': '/files/a\x01b\x1b[31m',
                 # a rewrite-mode application reroutes a path with doubled separators: the environ goes over untouched
@@ -231,6 +268,13 @@ def impl_kind(case):
         target_calls = [x for x in _SEQ if isinstance(x, tuple) and x[0] == 'target']
         rec = {'events': events, 'problems': problems, 'exc': exc, 'still_open': still_open, 'n_opened': len(opened)}
         if kind.startswith('reroute') and exc is None:
+            direct = None
+            if case.get('target') == 'clastic_app':
+                # what the target answers when a server calls it with the same request
+                envd = wsgi.environ(path, method=method, headers=headers)
+                envd['custom.key'] = 'kept'
+                rd = wsgi.call(app._verif_target, envd)
+                direct = {'status': rd.status, 'headers': rd.headers, 'body': rd.body.decode('latin-1')}
             env2 = wsgi.environ(path, method=method, headers=headers)
             env2['custom.key'] = 'kept'
             orig_items = sorted((k, repr(v)) for k, v in env2.items())
@@ -238,7 +282,7 @@ def impl_kind(case):
             r = wsgi.call(app, env2)
             t = [x for x in _SEQ if isinstance(x, tuple) and x[0] == 'target']
             rec['reroute'] = {'status': r.status, 'headers': r.headers, 'body': r.body.decode('latin-1'), 'calls': len(t),
-                              'same_environ': bool(t) and t[0][1] == id(env2),
+                              'same_environ': bool(t) and t[0][1] == id(env2), 'direct': direct,
                               'items_intact': bool(t) and all(item in t[0][2] for item in orig_items)}
         # the standard library's validator on a fresh request (its own assertion messages)
         try:
@@ -327,7 +371,7 @@ def run(rep, b, tier, seed, only_cases=None):
                 for h in (hdrsets if tier != 'quick' else hdrsets[:2]):
                     cases.append({'lab': 'kind', 'kind': kind, 'method': method, 'headers': h})
         for kind in ('reroute', 'reroute_raise'):
-            for tk in sorted(TARGETS):
+            for tk in sorted(TARGETS) + ['clastic_app']:
                 for method in METHODS:
                     cases.append({'lab': 'kind', 'kind': kind, 'method': method, 'headers': None, 'target': tk})
     rep.rule = ('wsgilab: (A) random application trees to depth 2 with application-, sub-application- and route-level middlewares over 4 '
@@ -415,6 +459,14 @@ def run(rep, b, tier, seed, only_cases=None):
             if rr['calls'] != 1 or not rr['same_environ'] or not rr['items_intact']:
                 rep.violation('%s: the target was called %d times, same environ object: %s, all entries intact: %s'
                               % (what, rr['calls'], rr['same_environ'], rr['items_intact']), {'case': c, 'signature': 'reroute-environ'})
+            elif rr.get('direct') is not None:
+                d = rr['direct']
+                if rr['status'] != d['status'] or [list(h) for h in rr['headers']] != [list(h) for h in d['headers']] \
+                        or rr['body'] != d['body']:
+                    rep.violation('%s: the target (a clastic Application with its own WSGI wrapper) answers %s %s %r when called '
+                                  'directly, the reroute relayed %s %s %r' % (what, d['status'], d['headers'], d['body'], rr['status'],
+                                                                              rr['headers'], rr['body']),
+                                  {'case': c, 'signature': 'reroute-relay'})
             elif rr['status'] != TARGETS[c.get('target', 'plain203')][0] \
                     or [list(h) for h in rr['headers']] != [list(h) for h in TARGETS[c.get('target', 'plain203')][1]] \
                     or (c['method'] != 'HEAD' and rr['body'] != b''.join(TARGETS[c.get('target', 'plain203')][2]).decode('latin-1')):
